@@ -2203,9 +2203,10 @@ class LogicalFile:
             data = {}
 
         if isinstance(data, dict):
-            self._data_dict = self._data_dict | data
+            # data of this particular 'write' call are merged with those given when adding channels - but only for
+            # the current call; they should not be available to the subsequent ones
             data_object = DictDataWrapper(
-                self._data_dict,
+                self._data_dict | data,
                 mapping=fr.channel_name_mapping,
                 known_dtypes=fr.known_channel_dtypes_mapping,
                 from_idx=from_idx,
